@@ -14,8 +14,12 @@ srcs=[l.strip() for l in open('.srclist.tmp') if l.strip()]
 open('.srclist','w').write("\n".join(srcs))
 os.remove('.srclist.tmp')
 PY
-timeout 3000 make -j16
+timeout 3000 make -j16 -k || echo 'WARNING: some Coq files did not build (each check rebuilds what it needs)'
 cd ../harness
 cp /repo/Cargo.lock Cargo.lock.repo 2>/dev/null || true
-timeout 3000 cargo build --offline --bins -k || timeout 3000 cargo build --offline --bins
+timeout 3000 cargo build --offline --lib
+for b in src/bin/*.rs; do
+  n=$(basename "$b" .rs)
+  timeout 3000 cargo build --offline --bin "$n" || echo "WARNING: driver $n did not build"
+done
 echo "setup done"
